@@ -601,7 +601,25 @@ def tie(ctx):
             sess_store.append((sess, f))
             divs.append(Divergence("corr.tree+solver", {"session": sess}, f.what, "ok"))
     tie.sess_store = sess_store
-    for case in c08.plan(ctx, scale=0.8):
+    def wide_roots():
+        # roots with more than 256 children (two stacks of six in the middle of a 6x6 board: ~340 legal
+        # moves): buffers sized for "any reasonable number of moves" end here
+        import tak
+        from tak import pieces as _pc
+
+        for k in range(2 if ctx.thorough else 1):
+            board = [[] for _ in range(36)]
+            for (x, y) in ((2, 2), (3, 3)):
+                board[x + 6 * y] = [_pc.Piece.cached(_pc.Color.WHITE, _pc.Kind.FLAT)] + [
+                    _pc.Piece.cached(_pc.Color(ctx.rng.randrange(2)), _pc.Kind.FLAT) for _ in range(5 + k)]
+            pos = tak.Position(size=6, stones=(tak.StoneCounts(20, 1), tak.StoneCounts(22, 1)), ply=14, board=board)
+            c = td.make_case(ctx.rng, 6, pos, "uniform", 3 + k, False, None, None)
+            c["dump"] = False
+            yield c
+
+    import itertools
+
+    for case in itertools.chain(wide_roots(), c08.plan(ctx, scale=0.8)):
         ctx.count("evaluator:" + case["evaluator"])
         ctx.count("size:%d" % case["size"])
         res = td.run_case(case)
